@@ -10,3 +10,7 @@ import Bp7.Props.C05
 #print axioms Bp7.C05.be32_inj
 #print axioms Bp7.feed_window_ne
 #print axioms Bp7.crcBit_xor
+#print axioms Bp7.C05.primary_corruption_detected_32
+#print axioms Bp7.C05.canon_corruption_detected_16
+#print axioms Bp7.C05.canon_corruption_detected_32
+#print axioms Bp7.C05.bundle_fails_if_block_fails
